@@ -248,8 +248,9 @@ func (c *Conn) Read(b []byte) (int, error) {
 		return 0, net.ErrClosed
 	}
 
-	_, n, err := c.doRead(b)
+	dstConn, n, opened, err := c.doRead(b)
 	c.mux.Unlock()
+	c.afterReadUDP(dstConn, opened)
 	// if err == nil {
 	// 	c.p.g.afterRead(c)
 	// }
@@ -276,8 +277,9 @@ func (c *Conn) ReadAndGetConn(pdata *[]byte) (*Conn, int, error) {
 		return c, 0, net.ErrClosed
 	}
 
-	dstConn, n, err := c.doRead(*pdata)
+	dstConn, n, opened, err := c.doRead(*pdata)
 	c.mux.Unlock()
+	c.afterReadUDP(dstConn, opened)
 	// if err == nil {
 	// 	c.p.g.afterRead(c)
 	// }
@@ -286,10 +288,11 @@ func (c *Conn) ReadAndGetConn(pdata *[]byte) (*Conn, int, error) {
 }
 
 //go:norace
-func (c *Conn) doRead(b []byte) (*Conn, int, error) {
+func (c *Conn) doRead(b []byte) (*Conn, int, bool, error) {
 	switch c.typ {
 	case ConnTypeTCP, ConnTypeUnix:
-		return c.readStream(b)
+		dstConn, n, err := c.readStream(b)
+		return dstConn, n, false, err
 	case ConnTypeUDPServer, ConnTypeUDPClientFromDial:
 		return c.readUDP(b)
 	case ConnTypeUDPClientFromRead:
@@ -297,7 +300,29 @@ func (c *Conn) doRead(b []byte) (*Conn, int, error) {
 		// it's handled when reading ConnTypeUDPServer.
 	default:
 	}
-	return c, 0, errors.New("invalid udp conn for reading")
+	return c, 0, false, errors.New("invalid udp conn for reading")
+}
+
+// afterReadUDP notifies the application of a UDP session that the last read
+// has created, and renews the session's read timeout. It runs without the
+// server connection's mutex: the open handler may end the session at once
+// (Close, a failing Write), and that takes the server connection's mutex to
+// remove the session from its table.
+//
+//go:norace
+func (c *Conn) afterReadUDP(uc *Conn, opened bool) {
+	if uc == nil || uc == c || c.typ != ConnTypeUDPServer {
+		return
+	}
+	g := c.p.g
+	if opened {
+		g.onOpen(uc)
+	}
+	// after the open notification: the timer closes the session when it
+	// fires, and a session must not be closed before it has been opened.
+	if g.UDPReadTimeout > 0 {
+		_ = uc.SetReadDeadline(time.Now().Add(g.UDPReadTimeout))
+	}
 }
 
 // read from TCP/Unix socket.
@@ -311,33 +336,28 @@ func (c *Conn) readStream(b []byte) (*Conn, int, error) {
 // read from UDP socket.
 //
 //go:norace
-func (c *Conn) readUDP(b []byte) (*Conn, int, error) {
+func (c *Conn) readUDP(b []byte) (*Conn, int, bool, error) {
 	nread, rAddr, err := syscall.Recvfrom(c.fd, b, 0)
 	if c.closeErr == nil {
 		c.closeErr = err
 	}
 	if err != nil {
-		return c, 0, err
+		return c, 0, false, err
 	}
 
-	var g = c.p.g
 	var dstConn = c
+	var opened = false
 	if c.typ == ConnTypeUDPServer {
 		// get or create and cache the consistent connection for the socket
-		// that has the same local addr and remote addr.
+		// that has the same local addr and remote addr. The caller notifies
+		// the application of a new one (afterReadUDP), once it has released
+		// this connection's mutex.
 		uc, ok := c.connUDP.getConn(c.p, c.fd, rAddr)
-		if !ok {
-			g.onOpen(uc)
-		}
-		// after the open notification: the timer closes the session when it
-		// fires, and a session must not be closed before it has been opened.
-		if g.UDPReadTimeout > 0 {
-			_ = uc.SetReadDeadline(time.Now().Add(g.UDPReadTimeout))
-		}
+		opened = !ok
 		dstConn = uc
 	}
 
-	return dstConn, nread, err
+	return dstConn, nread, opened, err
 }
 
 // Write writes data to the connection.
